@@ -1027,3 +1027,278 @@ pub fn heavy_positions(t: &Tables, seed: u64, n: usize, queens: usize) -> Value 
     }
     Value::Array(out)
 }
+
+// ---------------------------------------------------------------------------------------------
+// C11: mate announcements beyond the distance TLC re-derives by brute force.  The harness only FINDS a certificate
+// (with the engine's own generator, which is not trusted): a proof DAG for "the mover mates within n moves" / "is mated
+// within n moves", or a refutation DAG for the same claim.  TraceSearch.tla CHECKS the certificate node by node against
+// Chess.tla (every "all replies" node must list exactly Legal(pos), every "one move" node a member of it, leaves are
+// checkmates / stalemates / exhausted budgets) - the verdict on the announcement is TLC's.
+//   node types  A  (mover mates within n)            one kid   -> D n-1
+//               D  (checkmated now, or n >= 1 and every reply runs into A n)   all kids -> A n
+//               NA (mover does NOT mate within n)     all kids  -> ND n-1      (n = 0: leaf)
+//               ND (not checkmated, and n = 0 or some reply reaches NA n)      one kid -> NA n (stalemate / n = 0: leaf)
+// ---------------------------------------------------------------------------------------------
+struct Solver<'a> {
+    t: &'a Tables,
+    memo: HashMap<(u64, u8, bool), bool>, // (key, n, attacker node?) -> attacker wins
+    work: u64,
+    cap: u64,
+}
+
+impl<'a> Solver<'a> {
+    fn moves(&mut self, b: &BoardState) -> Vec<BoardState> {
+        self.work += 1;
+        generate_moves(b, MoveGenerationMode::AllMoves, &self.t.hasher)
+    }
+    // the side to move mates within n of its own moves
+    fn a(&mut self, b: &BoardState, n: u8) -> bool {
+        if n == 0 || self.work > self.cap {
+            return false;
+        }
+        let key = (self.t.scratch_key(b), n, true);
+        if let Some(v) = self.memo.get(&key) {
+            return *v;
+        }
+        let mut kids = self.moves(b);
+        // checking moves first
+        kids.sort_by_key(|m| !is_check(m, m.to_move));
+        let mut r = false;
+        for m in &kids {
+            if self.d(m, n - 1) {
+                r = true;
+                break;
+            }
+        }
+        if self.work <= self.cap {
+            self.memo.insert(key, r);
+        }
+        r
+    }
+    // the side to move is checkmated now, or (n >= 1) has a move and every move runs into a mate within n
+    fn d(&mut self, b: &BoardState, n: u8) -> bool {
+        if self.work > self.cap {
+            return false;
+        }
+        let key = (self.t.scratch_key(b), n, false);
+        if let Some(v) = self.memo.get(&key) {
+            return *v;
+        }
+        let kids = self.moves(b);
+        let r = if kids.is_empty() {
+            is_check(b, b.to_move)
+        } else if n == 0 {
+            false
+        } else {
+            let mut all = true;
+            for m in &kids {
+                if !self.a(m, n) {
+                    all = false;
+                    break;
+                }
+            }
+            all
+        };
+        if self.work <= self.cap {
+            self.memo.insert(key, r);
+        }
+        r
+    }
+}
+
+struct CertOut<'a> {
+    t: &'a Tables,
+    nodes: Vec<Value>,
+    ids: HashMap<(u64, u8, u8), u64>, // (key, n, type) -> 1-based index
+    over: bool,
+    cap: usize,
+}
+
+impl<'a> CertOut<'a> {
+    // returns the 1-based index of the node (key, n, ty); ty: 0 A, 1 D, 2 NA, 3 ND
+    fn emit(&mut self, s: &mut Solver, b: &BoardState, n: u8, ty: u8) -> u64 {
+        let key = (self.t.scratch_key(b), n, ty);
+        if let Some(i) = self.ids.get(&key) {
+            return *i;
+        }
+        if self.nodes.len() >= self.cap {
+            self.over = true;
+            return 0;
+        }
+        let idx = self.nodes.len() as u64 + 1;
+        self.ids.insert(key, idx);
+        self.nodes.push(Value::Null);
+        let kids = generate_moves(b, MoveGenerationMode::AllMoves, &self.t.hasher);
+        let mut k: Vec<u64> = Vec::new();
+        match ty {
+            0 => {
+                // one move after which D(n-1) holds
+                if let Some(m) = kids.iter().find(|m| s.d(m, n - 1)) {
+                    k.push(self.emit(s, m, n - 1, 1));
+                }
+            }
+            1 => {
+                if !kids.is_empty() {
+                    for m in &kids {
+                        k.push(self.emit(s, m, n, 0));
+                    }
+                }
+            }
+            2 => {
+                if n >= 1 {
+                    for m in &kids {
+                        k.push(self.emit(s, m, n - 1, 3));
+                    }
+                }
+            }
+            _ => {
+                if !kids.is_empty() && n >= 1 {
+                    if let Some(m) = kids.iter().find(|m| !s.a(m, n)) {
+                        k.push(self.emit(s, m, n, 2));
+                    }
+                }
+            }
+        }
+        let st = self.t.state(b);
+        let tyname = ["A", "D", "NA", "ND"][ty as usize];
+        self.nodes[idx as usize - 1] = json!({"r": st["r"], "stm": st["stm"], "cr": st["cr"], "ep": st["ep"], "t": tyname, "n": n, "k": k});
+        idx
+    }
+}
+
+// shortest mate for the mover (1..=maxn) or 0, by the solver (used to pick interesting positions only)
+fn mate_distance(t: &Tables, b: &BoardState, maxn: u8, cap: u64) -> u8 {
+    let mut s = Solver { t, memo: HashMap::new(), work: 0, cap };
+    for n in 1..=maxn {
+        if s.a(b, n) {
+            return n;
+        }
+        if s.work > cap {
+            return 0;
+        }
+    }
+    0
+}
+
+pub fn mate_certs(t: &Tables, cmds0: &[String], dir: &str, nshards: usize, seed: u64, budget: u64, lo: i64, hi: i64, randoms: usize, node_cap: usize, claim_delta: i64) -> Value {
+    // scenarios given + random small endgames in which the mover has a forced mate in lo..hi moves (filtered with the solver)
+    let mut cmds: Vec<String> = cmds0.to_vec();
+    let kits: [(&[u32], &[u32]); 7] = [(&[6, 5], &[6]), (&[6, 4], &[6]), (&[6, 4, 4], &[6]), (&[6, 5], &[6, 4]), (&[6, 5, 5], &[6]),
+                                        (&[6, 4, 1], &[6]), (&[6, 5], &[6, 2])];
+    let idx: Vec<String> = (0..randoms).map(|i| i.to_string()).collect();
+    let found: Vec<Option<String>> = par_map(&idx, |i, _| {
+        let mut rng = StdRng::seed_from_u64(seed.wrapping_mul(1_000_003).wrapping_add(i as u64));
+        for _ in 0..400 {
+            let (s, w) = kits[rng.gen_range(0..kits.len())];
+            if let Some(b) = random_endgame(t, &mut rng, s, w) {
+                if generate_moves(&b, MoveGenerationMode::AllMoves, &t.hasher).is_empty() {
+                    continue;
+                }
+                let dist = mate_distance(t, &b, hi as u8, 300_000) as i64;
+                if dist >= lo && dist <= hi {
+                    return Some(format!("position fen {}", to_fen(&b, 0, 1)));
+                }
+                // the defender's view of the same kind of position: the bare side to move, mated within lo-1..hi-1
+                if dist == 0 && rng.gen_bool(0.3) {
+                    let mut s2 = Solver { t, memo: HashMap::new(), work: 0, cap: 300_000 };
+                    for n in (lo - 1).max(1)..hi {
+                        if s2.d(&b, n as u8) {
+                            return Some(format!("position fen {}", to_fen(&b, 0, 1)));
+                        }
+                    }
+                }
+            }
+        }
+        None
+    });
+    cmds.extend(found.into_iter().flatten());
+    let results: Vec<Vec<Value>> = par_map(&cmds, |_i, cmd| {
+        let sc = match scenario(t, cmd) {
+            Some(sc) => sc,
+            None => return Vec::new(),
+        };
+        if table_entries(&sc.table).len() > 1 {
+            return Vec::new(); // claims are judged on the rules alone only without a repetition history
+        }
+        let full = run_search(t, &sc.board, &sc.table, budget);
+        if full.panic {
+            return Vec::new();
+        }
+        // the strongest positive claim on any line, the strongest negative claim among the last lines of completed depths
+        let maxd = full.infos.iter().filter_map(|i| i["depth"].as_i64()).max().unwrap_or(0);
+        let mut pos: Option<(i64, String)> = None;
+        let mut neg: Option<(i64, String)> = None;
+        for (j, i) in full.infos.iter().enumerate() {
+            if i["ok"].as_bool() != Some(true) || i["kind"].as_str() != Some("mate") {
+                continue;
+            }
+            let v = i["val"].as_i64().unwrap_or(0);
+            let raw = i["raw"].as_str().unwrap_or("").to_string();
+            if v > 0 {
+                if pos.as_ref().map_or(true, |p| v < p.0) {
+                    pos = Some((v, raw));
+                }
+            } else if v < 0 {
+                let d = i["depth"].as_i64().unwrap_or(0);
+                let last_of_depth = full.infos[j + 1..].iter().all(|x| x["depth"].as_i64().unwrap_or(0) != d);
+                if last_of_depth && d < maxd && neg.as_ref().map_or(true, |p| -v < p.0) {
+                    neg = Some((-v, raw));
+                }
+            }
+        }
+        let mut evs = Vec::new();
+        for (claim, sign) in [(pos, 1i64), (neg, -1i64)] {
+            let (n, raw) = match claim {
+                Some(c) => c,
+                None => continue,
+            };
+            if n < lo || n > hi {
+                continue;
+            }
+            // self-test of the judge only: pretend the engine had announced a shorter / longer mate
+            let n = (n + claim_delta).max(1);
+            let mut s = Solver { t, memo: HashMap::new(), work: 0, cap: 2_000_000 };
+            let holds = if sign > 0 { s.a(&sc.board, n as u8) } else { s.d(&sc.board, n as u8) };
+            let base = json!({"ev": "mcert", "cmd": cmd, "root": t.state(&sc.board), "claim": sign * n, "raw": raw});
+            let mut ev = base.as_object().unwrap().clone();
+            if s.work > s.cap {
+                ev.insert("cert".into(), json!("none"));
+                ev.insert("nodes".into(), json!([]));
+                evs.push(Value::Object(ev));
+                continue;
+            }
+            s.cap = u64::MAX;
+            let mut c = CertOut { t, nodes: Vec::new(), ids: HashMap::new(), over: false, cap: node_cap };
+            let ty = match (sign > 0, holds) {
+                (true, true) => 0,
+                (true, false) => 2,
+                (false, true) => 1,
+                (false, false) => 3,
+            };
+            c.emit(&mut s, &sc.board, n as u8, ty);
+            if c.over {
+                ev.insert("cert".into(), json!("none"));
+                ev.insert("nodes".into(), json!([]));
+            } else {
+                ev.insert("cert".into(), json!(if holds { "proof" } else { "refutation" }));
+                ev.insert("nodes".into(), Value::Array(c.nodes));
+            }
+            evs.push(Value::Object(ev));
+        }
+        evs
+    });
+    let mut out = Shards::new(dir, "search", nshards);
+    let mut load = vec![0usize; nshards];
+    let (mut n_ev, mut n_nodes) = (0u64, 0u64);
+    for evs in &results {
+        for e in evs {
+            let shard = (0..nshards).min_by_key(|i| load[*i]).unwrap();
+            load[shard] += e["nodes"].as_array().map_or(0, |a| a.len()) + 1;
+            n_nodes += e["nodes"].as_array().map_or(0, |a| a.len()) as u64;
+            n_ev += 1;
+            out.emit(shard, e);
+        }
+    }
+    out.finish();
+    json!({"scenarios": cmds.len(), "claims": n_ev, "certificate_nodes": n_nodes})
+}
